@@ -34,3 +34,7 @@ add("C16", "Hypothesis-generated tables x all print options; stdout parsed row-w
     "Every option combination is sampled against a reference for row content, ordering (ties), factor arithmetic, refusals and non-mutation.",
     "Trusted: the row splitter (fields separated by >=2 blanks).",
     "DESIGN.md 4 C16")
+add("C02", "metamorphic: snapshot of every public query before/after random compositions of layout rewrites and file packagings (Hypothesis), over generated files, all tests/data files and master-file chunks",
+    "Two inputs that must mean the same are parsed and every public query compared; the rewrite positions, kinds and packaging (string / file / split files, BOM, End, missing final newline, empty file) are drawn by Hypothesis.",
+    "Trusted: pbt/rewrite.py (text-level rewriter, own tokeniser) and the generator's layout renderer apply only the edits C02 lists; equal snapshots on all fixtures of the unchanged tree support that.",
+    "DESIGN.md 4 C02")
